@@ -77,3 +77,26 @@ extern "C" void verif_blake_layout(int* o) {
 }
 extern "C" int verif_blake_update(void* S, const void* in, size_t n) { return blake2b_update((blake2b_state*)S, in, n); }
 extern "C" int verif_blake_final(void* S, void* out, size_t n) { return blake2b_final((blake2b_state*)S, out, n); }
+
+#include "superscalar.hpp"
+#include "superscalar_program.hpp"
+// one SuperscalarHash instruction: interpreter (executeSuperscalar) and the bytes the JIT emits for it
+extern "C" void verif_ss_exec(const uint8_t* instr8, uint64_t rcp, uint64_t* r) {
+	SuperscalarProgram* p = new SuperscalarProgram();
+	memcpy((void*)&(*p)(0), instr8, 8); p->setSize(1);
+	std::vector<uint64_t> rc; rc.push_back(rcp);
+	executeSuperscalar(*(uint64_t(*)[8])r, *p, &rc);
+	delete p;
+}
+extern "C" int verif_ss_emit(const uint8_t* instr8, uint64_t rcp, uint8_t* out, int cap) {
+	JitCompilerX86* jit = new JitCompilerX86();
+	jit->enableAll();
+	const int base = 4096; jit->codePos = base;
+	Instruction ins; memcpy((void*)&ins, instr8, 8);
+	std::vector<uint64_t> rc; rc.push_back(rcp);
+	jit->generateSuperscalarCode(ins, rc);
+	int n = jit->codePos - base; if (n > cap) n = cap;
+	memcpy(out, jit->code + base, n);
+	delete jit;
+	return n;
+}
